@@ -76,6 +76,22 @@ pub fn tuples() -> BTreeMap<&'static str, Vec<Value>> {
     t
 }
 
+/// an expression that *computes* a value of the given type (first tuple column) through an operator
+fn computed(t: &str) -> Expr {
+    match t {
+        "Bool" => Expr::lt(Expr::value(1), Expr::value(2)),
+        "Int" => Expr::add(Expr::value(0), Expr::value(1)),
+        "Float" => Expr::mult(Expr::value(1.0), Expr::value(1.0)),
+        "Decimal" => Expr::sub(Expr::value(Decimal::new(2, 0)), Expr::value(Decimal::new(1, 0))),
+        "String" => Expr::trim(Expr::value(" 1 ".to_string())),
+        "DateTime" => Expr::datetime(Expr::value(1)),
+        "Duration" => Expr::second(Expr::value(1)),
+        "Vec" => Expr::Vec(vec![Expr::add(Expr::value(0), Expr::value(1))]),
+        "Map" => Expr::Map([("a".to_string(), Expr::value(1))].into_iter().collect()),
+        _ => unreachable!(),
+    }
+}
+
 fn is_type_error(o: &Obs) -> bool {
     matches!(o, Obs::Err { cls, .. } if *cls == crate::refeval::cls::INVALID_TYPE)
 }
@@ -237,6 +253,17 @@ fn run(ctx: &mut Ctx) {
             // a condition computed by a sub-expression
             let e = Expr::iif(Expr::index(Expr::Vec(vec![Expr::value(v.clone())]), 0usize.into()), Expr::value(1), Expr::value(2));
             expect_type_error(ctx, &e, &cell, "if-condition-computed");
+            // branch shapes a "simplifying" implementation might special-case: literal true/false, the condition itself
+            for (tb, fb, shape) in [
+                (Expr::value(true), Expr::value(false), "true-false"), (Expr::value(false), Expr::value(true), "false-true"),
+                (Expr::value(v.clone()), Expr::value(v.clone()), "condition-in-both-branches"), (Expr::none_value(), Expr::none_value(), "none-branches"),
+                (Expr::value(true), Expr::value(true), "identical-branches"),
+            ] {
+                let e = Expr::iif(Expr::value(v.clone()), tb, fb);
+                expect_type_error(ctx, &e, &cell, &format!("if-condition-{shape}"));
+                let e2 = Expr::eq(e, Expr::value(v.clone()));
+                expect_type_error(ctx, &e2, &cell, &format!("if-condition-{shape}-under-eq"));
+            }
             // non-Bool reaching `and`/`or`/`!` through if-branches
             let e = Expr::not(Expr::iif(Expr::value(true), Expr::value(v.clone()), Expr::value(true)));
             if t != "Bool" {
@@ -320,6 +347,10 @@ fn run(ctx: &mut Ctx) {
                         ("via list elements".to_string(), ctor(Expr::index(Expr::Vec(vec![lit(&x)]), 0usize.into()), Expr::index(Expr::Vec(vec![lit(&y), lit(&x)]), 0usize.into()))),
                         ("via if branches".to_string(), ctor(Expr::iif(Expr::value(true), lit(&x), lit(&y)), Expr::iif(Expr::value(false), lit(&x), lit(&y)))),
                         ("mixed".to_string(), ctor(Expr::reff("a"), Expr::func("v", Expr::symbol("sb")))),
+                        // operands that are the RESULT of an operator producing that type (a Bool out of a comparison, …)
+                        ("via computed operands".to_string(), ctor(computed(a), computed(b))),
+                        ("via computed left operand".to_string(), ctor(computed(a), lit(&y))),
+                        ("via computed right operand".to_string(), ctor(lit(&x), computed(b))),
                     ];
                     let fx = build(&descs, &symbols, &rules, FaultPlan::default());
                     let cell = format!("{name}({a},{b})");
